@@ -8,28 +8,28 @@ def T(qc, tc, size=100, qw=8, tw=NP, **kw):
     return d
 
 TIERS = {
-    "C01": T(1500, 20000),
+    "C01": T(2500, 30000),
     "C02": T(2500, 40000),
-    "C03": T(1500, 25000),
+    "C03": T(2500, 30000),
     "C04": T(2000, 30000),
-    "C05": T(700, 12000),
+    "C05": T(1500, 15000),
     "C06": T(1500, 20000),
     "C07": T(1200, 15000),
     "C08": T(1200, 15000),
-    "C09": T(900, 15000),
+    "C09": T(1800, 20000),
     "C10": T(500, 6000, flavour="asanfn", flavours=["tsan"], extra="tsan",
              tsan={"quick": {"cases": 40, "workers": 8, "size": 70}, "thorough": {"cases": 500, "workers": 16, "size": 100}}),
     "C11": T(1500, 12000, global_lock_order=True),
     "C12": T(2500, 40000, extra="fuzz", fuzz={"quick": {"workers": 8, "runs": 5000}, "thorough": {"workers": 16, "runs": 400000}}),
     "C13": T(1200, 12000, extra="fuzz", fuzz={"quick": {"workers": 8, "runs": 3000}, "thorough": {"workers": 16, "runs": 200000}}),
-    "C14": T(1500, 12000),
-    "C15": T(900, 15000),
+    "C14": T(2500, 20000),
+    "C15": T(2000, 25000),
     "C16": T(800, 10000),
     "C17": T(1200, 15000, flavours=["plain"], extra="valgrind",
              valgrind={"quick": {"cases": 40, "workers": 8, "size": 60}, "thorough": {"cases": 600, "workers": 16, "size": 80}}),
-    "C18": T(2500, 40000),
+    "C18": T(4000, 50000),
     "C19": T(2000, 20000),
-    "C20": T(1000, 15000),
+    "C20": T(2000, 20000),
 }
 
 LEVEL = {
